@@ -583,8 +583,9 @@ fn extreme_bounds(ctx: &Ctx) -> u64 {
     let mut n = 0;
     let menu = response_menu();
     let redirect = menu.iter().find(|r| r.status == 302 && r.location.as_deref() == Some("/abs/path")).unwrap().clone();
-    for max in [u32::MAX, u32::MAX - 1, u32::MAX / 2 + 1, 1 << 16] {
-        for hops in [1usize, 3] {
+    // (and bounds just above what a browser would follow, with chains that use them)
+    for (max, hops_list) in [(u32::MAX, vec![1usize, 3]), (u32::MAX - 1, vec![1, 3]), (u32::MAX / 2 + 1, vec![1, 3]), (1 << 16, vec![1, 3]), (21, vec![21]), (30, vec![25, 30]), (100, vec![64])] {
+        for hops in hops_list {
             n += 1;
             let mut chain = vec![redirect.clone(); hops];
             chain.push(menu[0].clone());
